@@ -317,6 +317,7 @@ prepoll(const struct pollfd * fds, int nfds, int timeout)
 static void leak_report(void);
 static int leak_registered;
 
+static void spin_hook(void); static void blocked_hook(void);
 static void
 body(void)
 {
@@ -340,7 +341,7 @@ body(void)
 	if (force_single) { static const size_t one[1] = {1}; fk_set_arrival_menu(one, 1); fk_force_arrival = 1; fk_allow_spurious = fk_allow_eintr = fk_allow_senderr = 0; }
 	else { fk_set_arrival_menu(C->menu, C->nmenu); fk_force_arrival = 0; fk_allow_spurious = fk_allow_eintr = fk_allow_senderr = !C->minimal; }
 	if (force_single && C->resplen > 6000) return;
-	fk_poll_horizon = force_single ? (int)(3 * C->resplen + 200) : 200;
+	fk_poll_horizon = force_single ? (int)(3 * C->resplen + 200) : 200; fk_horizon_hook = spin_hook; fk_blocked_hook = blocked_hook;
 	{ static const size_t sm[] = {1, 7}; fk_set_space_menu(sm, 2); }
 	verif_netbuf_buflen = C->nbuf;
 	build_request(&rq);
@@ -354,7 +355,7 @@ body(void)
 		misuse_check();
 		if (mc_failed() || !active) break;
 		hstate(0, 0);
-		if (++steps > (force_single ? (int)(2 * C->resplen) + 40 : 40)) mc_cut("step horizon");
+		if (++steps > (force_single ? (int)(2 * C->resplen) + 40 : 40)) { FAIL("no-termination", "request still active after %d passes of the event loop (case %zu: %s)", steps, case_idx, C->desc); break; }
 		if (!force_single && mc_pick(2, "continue-or-cancel") == 1) {
 			mc_note("http_request_cancel()");
 			http_request_cancel(hcookie); hcookie = NULL; active = 0; cancelled = 1;
@@ -376,6 +377,7 @@ body(void)
 	{ uint8_t o[4]; o[0] = (uint8_t)callbacks; o[1] = (uint8_t)cancelled; o[2] = (uint8_t)cb_null; o[3] = (uint8_t)(case_idx & 0xff); mc_outcome(o, 4); }
 }
 
+static void spin_hook(void);
 static void
 teardown(void)
 {
@@ -395,6 +397,10 @@ teardown(void)
 	}
 }
 
+static void spin_hook(void){ FAIL("no-termination", "%d polls in one execution without the request ending (case %zu: %s)", fk_npolls, case_idx, C ? C->desc : "?"); }
+static void blocked_hook(void){ if (prop != 8 || C == NULL || C->in_end == FK_END_NONE) return;	/* a server that neither sends nor closes: waiting is right */
+	if (fk_open_count() == 1 && !fk_conn_established(FK_FD0)) return;	/* a connection attempt that never completes: only the caller can give up */
+	FAIL("blocked", "the request waits for ever although the server's bytes ended with EOF or a reset (case %zu: %s)", case_idx, C ? C->desc : "?"); }
 /* Bring every long-lived table of the library (pools, socket list, pollfd array, timer queue) to its working size before tracking starts. */
 static int warm_cb(void * c){ (void)c; return (0); }
 static int warm_rw(void * c, ssize_t n){ (void)c; (void)n; return (0); }
